@@ -258,7 +258,9 @@ def rule_tpl_meth(ctx):
                     ok = rn is not None and (f"{rn} : & mut derive_more :: core :: fmt :: {what}" in alltext or f"{rn} : & mut derive_more :: core :: error :: {what}" in alltext or f"{rn} : & {what}" in alltext)
                 elif kind_ == "bound":
                     rn = recv["s"] if recv and recv["t"] == "id" else None
-                    ok = rn is not None and f"derive_more :: core :: iter :: {what}" in t.text() and f"{rn} : I" in t.text()
+                    # `<P : derive_more::core::iter::Iterator ..>` declared in the template and the receiver typed `rn : P`
+                    mb = re.search(r"< (\w+) : derive_more :: core :: iter :: %s\b" % re.escape(what), t.text())
+                    ok = rn is not None and mb is not None and f"{rn} : {mb.group(1)}" in t.text()
                 if not ok:
                     ctx.report(
                         construct,
@@ -631,3 +633,67 @@ def _ident_sources(fn, name):
         if A.kind(p) == "FnArg::Typed" and base in A.pat_idents(p["0"]["pat"]):
             out.append(base)
     return out
+
+
+def _declared_generics(seq, out):
+    """(name, node) of the type / const parameters a template declares literally: `fn name<..>` and `impl<..>` lists"""
+    n = len(seq)
+    i = 0
+    while i < n:
+        x = seq[i]
+        if x["t"] == "id" and x["s"] in ("fn", "impl"):
+            j = i + (2 if x["s"] == "fn" else 1)
+            if j < n and seq[j]["t"] == "p" and seq[j]["c"] == "<":
+                depth = 0
+                while j < n:
+                    y = seq[j]
+                    if y["t"] == "p" and y["c"] == "<":
+                        depth += 1
+                    elif y["t"] == "p" and y["c"] == ">" and not (j > 0 and seq[j - 1]["t"] == "p" and seq[j - 1]["c"] in "-="  and seq[j - 1].get("joint")):
+                        depth -= 1
+                        if depth == 0:
+                            break
+                    elif y["t"] == "id" and depth == 1 and seq[j - 1]["t"] == "p" and seq[j - 1]["c"] in "<," and y["s"] not in ("const",):
+                        out.append((y["s"], y))
+                    elif y["t"] == "id" and depth == 1 and seq[j - 1]["t"] == "id" and seq[j - 1]["s"] == "const":
+                        out.append((y["s"], y))
+                    j += 1
+        elif x["t"] in ("grp", "rep"):
+            _declared_generics(x["body"], out)
+        i += 1
+    return out
+
+
+def rule_generic_capture(ctx):
+    """GEN-CAPTURE: a type or const parameter that generated code declares itself (`fn sum<I: ..>`, `impl<__T> ..`) is in scope where the user's own types are spliced (`#field_type`, `#ty`), so its name must be one the user cannot have written for a type of their own: it starts with `__`. A plain `I` / `T` / `U` captures a user type of that name (`struct I(i32); #[derive(Sum)] struct W(I);` -> `empty::<I>()` names the iterator parameter, E0277)."""
+    n = 0
+    for t in T.all_templates(ctx.files):
+        if not t.file.rel.startswith("impl/src/"):
+            continue
+        for name, node in _declared_generics(t.ir, []):
+            n += 1
+            key = f"{t.file.rel}::{t.fn.qual}:<{name}>"
+            ctx.instance(f"gen-capture:{key}", sample={"template in": f"{t.file.rel}::{t.fn.qual}", "parameter": name})
+            if not name.startswith("__"):
+                ctx.report(f"gen-capture:{key}", f"{t.file.rel}:{t.file.line(node['span'][0])}", f"the template in `{t.fn.qual}` declares the generic parameter `{name}`; user types are spliced inside its scope, so a user type called `{name}` is captured by it (the derive then fails to compile or, worse, resolves to the parameter) - generated parameters are named `__..`", {"template": t.text()[:300]})
+    # names of generated type-level items built as identifiers: `format_ident!("__RhsT")`, `parse_quote! { __AsT }`
+    for fn in A.all_functions(ctx.files):
+        if not fn.file.rel.startswith("impl/src/") or fn.block is None:
+            continue
+        cands = []
+        for fi in T.format_idents_of(fn):
+            pat = fi["pattern"] or ""
+            lit = re.sub(r"\{[^}]*\}", "", pat)
+            if lit and re.fullmatch(r"_*[A-Z][A-Za-z0-9_]*", lit) and (pat.startswith(lit[:1])):
+                cands.append((lit, fi["line"]))
+        for mac, _ in A.macros(fn.block, ("parse_quote",)):
+            toks = mac["tokens"]
+            if len(toks) == 1 and A.kind(toks[0]) == "Ident" and re.fullmatch(r"_*[A-Z][A-Za-z0-9_]*", toks[0]["sym"]):
+                cands.append((toks[0]["sym"], fn.file.line(toks[0]["span"][0])))
+        for name, line in cands:
+            n += 1
+            key = f"{fn.file.rel}::{fn.qual}:ident:{name}"
+            ctx.instance(f"gen-capture:{key}", sample={"built in": f"{fn.file.rel}::{fn.qual}", "name": name})
+            if not name.startswith("__"):
+                ctx.report(f"gen-capture:{key}", f"{fn.file.rel}:{line}", f"`{fn.qual}` builds the type-level name `{name}` for generated code (a generic parameter / const next to the user's own types): a user item of that name is captured - generated names start with `__`", {})
+    ctx.floor("generated type-level names", n, 7)
